@@ -125,7 +125,7 @@ Depth(v) == IF IsAtom(v) THEN 0
 \* ---------------------------------------------------------------- numbers as strings
 \* a float string as Rust prints it: digits, optional fraction; in [0,1] iff "0", "0.xxx" or "1"
 InUnit(s) == LET c == Chars(s) IN
-  \/ s = "0" \/ s = "1"
+  \/ s = "0" \/ s = "1" \/ s = "-0"
   \/ (Len(c) >= 3 /\ c[1] = "0" /\ c[2] = "." /\ \A i \in 3..Len(c) : c[i] \in Digits)
 
 \* ---------------------------------------------------------------- well-formedness of RESULTS (C12)
